@@ -360,3 +360,69 @@ Definition u_skip (fuel : nat) (ty : ttype) (s : ust) : res (Z * ust) :=
     if Nat.leb (uidx s - 3) (length (ubuf s))
     then skip_iter fuel ty (mkU (skipn (uidx s - 3) (ubuf s)) 3)
     else Panic SSplit.
+
+(* ------------------------------------------------------------------ *)
+(* a tolerant struct reader, as generated decoders are: fields whose id is in [skipid] are skipped
+   with the protocol's skipper, the others are read; a skipped field is reported as
+   (id, VList TVoid [VI64 count]) (TVoid never is the element type of a real list).  One version per
+   reader family: in-memory (binary, binary-LE, compact), asynchronous, unchecked. *)
+Definition skipped (c : Z) : tval := VList TVoid [VI64 c].
+
+Section Tolerant.
+  Variable p : pk.
+  Variable skipid : Z -> bool.
+
+  Fixpoint tfields (n : nat) (fuel : nat) (s : rst) (acc : list (Z * tval)) {struct n} : res (list (Z * tval) * rst) :=
+    match n with
+    | O => Err EOutOfFuel
+    | S n' =>
+        let* (h, s) := r_field_begin p s in
+        if ttype_eqb (fst h) TStop then Ok (rev acc, s)
+        else
+          let id := match snd h with Some i => i | None => 0 end in
+          if skipid id then
+            let* (c, s) := skip p fuel (fst h) s in tfields n' fuel s ((id, skipped c) :: acc)
+          else
+            let* (x, s) := read_val p fuel (fst h) s in tfields n' fuel s ((id, x) :: acc)
+    end.
+  Definition tread_struct (fuel : nat) (s : rst) : res (tval * rst) :=
+    let* (_, s) := r_struct_begin p s in
+    let* (fs, s) := tfields fuel fuel s [] in
+    let* (_, s) := r_struct_end p s in
+    Ok (VStruct fs, s).
+
+  Fixpoint atfields (n : nat) (fuel : nat) (s : rst) (acc : list (Z * tval)) {struct n} : res (list (Z * tval) * rst) :=
+    match n with
+    | O => Err EOutOfFuel
+    | S n' =>
+        let* (h, s) := a_field_begin p s in
+        if ttype_eqb (fst h) TStop then Ok (rev acc, s)
+        else
+          let id := match snd h with Some i => i | None => 0 end in
+          if skipid id then
+            let* (_, s) := askip p fuel (fst h) s in atfields n' fuel s ((id, skipped (-1)) :: acc)
+          else
+            let* (x, s) := aread_val p fuel (fst h) s in atfields n' fuel s ((id, x) :: acc)
+    end.
+  Definition atread_struct (fuel : nat) (s : rst) : res (tval * rst) :=
+    let* (_, s) := a_struct_begin p s in
+    let* (fs, s) := atfields fuel fuel s [] in
+    let* (_, s) := a_struct_end p s in
+    Ok (VStruct fs, s).
+
+  Fixpoint utfields (n : nat) (fuel : nat) (s : ust) (acc : list (Z * tval)) {struct n} : res (list (Z * tval) * ust) :=
+    match n with
+    | O => Err EOutOfFuel
+    | S n' =>
+        let* (h, s) := u_field_begin s in
+        if ttype_eqb (fst h) TStop then Ok (rev acc, s)
+        else
+          let id := match snd h with Some i => i | None => 0 end in
+          if skipid id then
+            let* (c, s) := u_skip fuel (fst h) s in utfields n' fuel s ((id, skipped c) :: acc)
+          else
+            let* (x, s) := uread_val fuel (fst h) s in utfields n' fuel s ((id, x) :: acc)
+    end.
+  Definition utread_struct (fuel : nat) (s : ust) : res (tval * ust) :=
+    let* (fs, s) := utfields fuel fuel s [] in Ok (VStruct fs, s).
+End Tolerant.
